@@ -759,7 +759,7 @@ const ntRule = "non-trivial = the bucket table grew while holding >= 2 elements 
 var specII = pbt.Register(pbt.Spec[IICase]{
 	Prop: "C12", Name: "intintmap",
 	Rule:  "IntIntMap: histories of 1-60 ops (put/add/add-if-exist/get/contains-key/contains-value/remove/clear/key+value arrays/three enumerators/sort/to-string/ToBytes+ToObject/IsEmpty/IsFull/SetMax, put and remove ranges) over a key alphabet of boundary values and same-bucket progressions, capacity 1..200 (biased small) x load factor 0.1..4 or the default constructor, NONE 0 or another sentinel, against a Go map; " + ntRule,
-	Quick: 1500, Thorough: 60000,
+	Quick: 20000, Thorough: 1000000,
 	Draw: drawII, Run: runII,
 })
 
@@ -1098,7 +1098,7 @@ const fContainsValueStub = "F121"
 var specIK = pbt.Register(pbt.Spec[IKCase]{
 	Prop: "C12", Name: "intkeymap",
 	Rule:  "IntKeyMap: histories of 1-60 ops (put/get/contains-key/contains-value/remove/clear/KeyArray under a hang detector/three enumerators/to-string/to-format-string/put-all from a second map or nil, put and remove ranges), int and string values, same key alphabets, capacity 0..200 x load factor 0.1..4 or the default constructor, against a Go map; " + ntRule,
-	Quick: 1500, Thorough: 60000,
+	Quick: 20000, Thorough: 1000000,
 	Draw: drawIK, Run: runIK,
 })
 
@@ -1299,7 +1299,7 @@ func runIS(c ISCase) *pbt.Result {
 var specIS = pbt.Register(pbt.Spec[ISCase]{
 	Prop: "C12", Name: "intset",
 	Rule:  "IntSet (fixed 101 buckets, load 0.75): histories of 1-51 ops (put/contains/remove/clear/put-all of progressions, lists and nil/enumerate/to-string/remove ranges); 60% start with a progression of up to 300 elements whose step is 1, 7 or a multiple of the bucket counts, so growth past 75 elements and long chains are frequent; against a Go set; " + ntRule,
-	Quick: 1500, Thorough: 60000,
+	Quick: 20000, Thorough: 1000000,
 	Draw: drawIS, Run: runIS,
 })
 
@@ -1499,7 +1499,7 @@ func runSS(c SSCase) *pbt.Result {
 var specSS = pbt.Register(pbt.Spec[SSCase]{
 	Prop: "C12", Name: "stringset",
 	Rule:  "StringSet (fixed 101 buckets, load 0.75, CRC-hashed): histories of 1-51 ops (put/unipoint/contains/has-key/remove/clear/enumerate, put and remove ranges prefix+number) over a pool of empty, ASCII, multi-byte and invalid-UTF-8 strings; the empty string is never stored (Put returns it, Contains/Remove answer false); 60% start with a range of up to 300 strings; against a Go set; " + ntRule,
-	Quick: 1500, Thorough: 60000,
+	Quick: 20000, Thorough: 1000000,
 	Draw: drawSS, Run: runSS,
 })
 
@@ -1525,4 +1525,28 @@ func TestBoundaries(t *testing.T) {
 	specSS.RunCase(t, SSCase{Ctor: "new", Ops: []Op{
 		{K: "put", S: ""}, {K: "contains", S: ""}, {K: "remove", S: ""}, {K: "putrange", S: gen.Hex([]byte("k")), N: 160}, {K: "removerange", S: gen.Hex([]byte("k")), A: 40, N: 80},
 		{K: "unipoint", S: gen.Hex([]byte("\xff"))}, {K: "haskey", S: gen.Hex([]byte("\xff"))}, {K: "enum"}, {K: "clear"}, {K: "enum"}}})
+}
+
+// TestKnownFindings prints the KNOWN-FINDING line for each finding of this
+// property that is listed as open (never fails; no-op for fixed/unlisted ones).
+func TestKnownFindings(t *testing.T) {
+	pbt.ProbeKnown("F21", func() (bool, string) {
+		m := hmap.NewIntIntMapDefault()
+		m.Put(1, 2)
+		if p := func() (p interface{}) { defer func() { p = recover() }(); m.ContainsValue(2); return nil }(); p != nil {
+			return true, fmt.Sprintf("IntIntMap.ContainsValue(2) after Put(1,2) panics: %v", p)
+		}
+		return !m.ContainsValue(2), "IntIntMap.ContainsValue(2) after Put(1,2)"
+	})
+	pbt.ProbeKnown("F22", func() (bool, string) {
+		m := hmap.NewIntKeyMapDefault()
+		m.Put(1, "x")
+		returned, _ := pbt.WithTimeout(5*time.Second, func() { m.KeyArray() })
+		return !returned, "IntKeyMap.KeyArray() on a one-element map does not return (5 s)"
+	})
+	pbt.ProbeKnown(fContainsValueStub, func() (bool, string) {
+		m := hmap.NewIntKeyMapDefault()
+		m.Put(1, "x")
+		return !m.ContainsValue("x"), `IntKeyMap.ContainsValue("x") after Put(1,"x") answers false`
+	})
 }
